@@ -89,7 +89,7 @@ PROPS = {
         suites=[dict(suite="writer", n_quick=3000, n_thorough=100000, what="random histories of the exported CodeWriter methods: buffer, indent level, mappings"),
                 dict(suite="print", n_quick=1500, n_thorough=50000, what="trees x compiler configurations: code, map, panic",
                      projection=CODE_ONLY)],
-        oracle_n_quick=60, oracle_n_thorough=2000,
+        oracle_n_quick=60, oracle_n_thorough=2000, oracle_n_search=150,
         explanation="C14: C14_no_global_writes, C14_printing_is_pure, C14_map_flag_neutral, C14_debug_string; schedules explored only.",
         open_statements=["data-race freedom under goroutine interleavings (explored with -race, cannot be exhibited by a Gallina model)"],
         assumptions=["effects analysis is syntactic (named in the trusted base)"],
@@ -182,6 +182,30 @@ PROPS = {
         oracle_n_quick=600, oracle_n_thorough=20000,
         explanation="C15 (writer/printer clauses): C15_compact_none, C15_only_comment_ops_differ, C15_comments_verbatim, C15_content_inert.",
         open_statements=["C15_comments_kept (position of every comment after re-lexing the pretty output)", "C15_blank_lines"],
+    ),
+    "C02": dict(
+        design_ref="DESIGN.md 4 (C02)",
+        level_text="Coq theorem: COMPLETENESS of the Pratt parser model w.r.t. an executable token-level specification of the subset as ECMA-262 parses it (Grammar.v: expression levels, left-associative binary operators, right-associative assignment with simple targets, restricted productions after return and before postfix ++/--, automatic semicolon insertion, else bound to the nearest if): for EVERY (tree, token list) pair of the grammar the default parser returns exactly that tree - every stored token included - with no error; the grammar is unambiguous. The statement sees tokens only through type, literal, after-newline flag and identity, so the tree is a function of the token sequence. The specification is validated against node 20 on generated programs (every program the reference unparser renders is accepted by node and is in the grammar) and rejects every known case where xjs accepts invalid JavaScript.",
+        level_note="Trusted: Coq kernel, translator xjs2v (binding powers, handler tables, ASI switch), extraction, harness/driver correspondence (parse suite), Grammar.v as the meaning of 'as JavaScript parses it'. Modelled not verified: parser control flow (differentially tested); strconv acceptance. The lexical half (text to tokens) is C10; redundant parentheses are grouping nodes of the grammar.",
+        technique="Coq proof (Pratt completeness in continuation form by induction on tree size, statements and ASI included) + model/implementation correspondence",
+        suites=[dict(suite="parse", n_quick=3000, n_thorough=100000, what="sources x 4 modes: tree, errors, flag",
+                     projection=POS_FREE),
+                dict(suite="lex", n_quick=2000, n_thorough=100000, what="token cores", projection=POS_FREE)],
+        oracle_n_quick=2500, oracle_n_thorough=200000,
+        explanation="C02: C02_parse_complete, C02_unambiguous.",
+        assumptions=["numbers Go's strconv rejects (08, 1e400, integers >= 2^63) are outside the grammar (go_int_ok / go_float_ok side conditions)"],
+    ),
+    "C05": dict(
+        design_ref="DESIGN.md 4 (C05)",
+        level_text="Coq theorems: token-type ids are stable per name, injective and >= 1000 > every built-in type, for every registration history; a registration for a token that already has the role (built-in or registered) is refused leaving the builder unchanged; the role sets are exactly the built-in handlers plus what was registered (seeds regenerated from NewBuilder and checked against the handler tables of newWithOptions); a fresh registration changes only its role; an infix operator registered at the level of a built-in binary operator b parses EXACTLY like b (simulation: parse with the operator = parse of the renamed tokens, up to renaming, errors included), for the 12 built-in binary operators without a prefix role and every configuration that does not touch b; a registered prefix operator parses exactly like '!'; a registered postfix operator is a CALL-level suffix. Levels without a built-in binary operator (1, 2, 9..13) are explored by the oracle.",
+        level_note="Trusted: Coq kernel, translator xjs2v (tables, builder seeds), extraction, harness/driver correspondence (reg suite: registered operators on dynamic tokens incl. refused duplicates). Operator callbacks are the node-constructor shapes the property names. Recorded finding KF18 (level 1 never binds).",
+        technique="Coq proof (simulation between two parser runs by induction on fuel; registry invariants over histories) + model/implementation correspondence",
+        suites=[dict(suite="reg", n_quick=3000, n_thorough=100000, what="expressions over registered operators: tree, errors, registration error flags",
+                     projection=POS_FREE),
+                dict(suite="parse", n_quick=1500, n_thorough=50000, what="sources x 4 modes", projection=POS_FREE)],
+        oracle_n_quick=1500, oracle_n_thorough=50000,
+        explanation="C05: C05_token_ids, C05_duplicate_refused, C05_role_sets, C05_register_effect, C05_infix_like_builtin, C05_prefix_like_builtin, C05_postfix_call_level.",
+        open_statements=["grouping of operators registered at levels 1, 2, 9..13 (no built-in binary operator of that level to compare with)"],
     ),
 }
 
